@@ -3,7 +3,7 @@ from .. import cppfull
 
 
 def run(ctx):
-    cppfull.run_cpp(ctx, ['C03'])
+    cppfull.run_cpp(ctx, ['C03'], ops=('build', 'reuse'))
     ctx.assumptions += ['the canonical bytes fed to C++ are those of the reference model; C01 establishes that the Python '
                         'codec emits exactly these bytes, so "what Python wrote" and "the documented bytes" coincide',
                         'x86-64, clang++-14 -O0 with ASan+UBSan; native == little on this host']
